@@ -58,6 +58,7 @@ type mapv struct {
 	m     map[value]value
 	keys  []value // insertion order (deterministic iteration)
 	hkeys []hashEntry
+	skeys []symEntry
 }
 
 // hashv is the result of FNV-64a over bytes of which some are symbolic. The
@@ -71,6 +72,13 @@ type hashv struct {
 
 type hashEntry struct {
 	k *hashv
+	v value
+}
+
+// symEntry is a map entry whose key has symbolic bytes (string or interface
+// holding a string); lookups decide equality with it instead of enumerating values.
+type symEntry struct {
+	k value
 	v value
 }
 
@@ -368,7 +376,7 @@ func (m *mapv) length() int {
 	if m == nil {
 		return 0
 	}
-	return len(m.m) + len(m.hkeys)
+	return len(m.m) + len(m.hkeys) + len(m.skeys)
 }
 
 // ---- debugging output ----
